@@ -308,6 +308,21 @@ class RepoInterp:
                 canon = tgt + ("." + rest if rest else "")
                 if canon.split(".")[-1] != fname.split(".")[-1] or head != tgt.split(".")[-1]:
                     fname = canon
+        if isinstance(call.func, ast.Attribute) and isinstance(call.func.value, ast.Call) and isinstance(call.func.value.func, ast.Name) and call.func.value.func.id == "super" \
+                and not call.func.value.args and "super" not in st.env and self.cur_fi.cls is not None and self.cur_fi.positional_params():
+            # super().m(...): the next definition of m after the class the running method is written in, along the MRO of
+            # the receiver's class
+            owner = self.cur_fi.cls
+            recv_s = st.env.get(self.cur_fi.positional_params()[0])
+            start = self._class_of_ref(recv_s, st) if isinstance(recv_s, Ref) and recv_s.kind == "obj" else self.self_class
+            chain = self.repo.mro(start if start is not None else owner)
+            fqs = [c.fq for c in chain]
+            rest_c = chain[fqs.index(owner.fq) + 1:] if owner.fq in fqs else self.repo.mro(owner)[1:]
+            m_s = next((c.methods[call.func.attr] for c in rest_c if call.func.attr in c.methods), None)
+            if m_s is not None and recv_s is not None:
+                return self._inline_call(m_s, call, recv_s, list(args), dict(kwargs), st)
+            if m_s is None and call.func.attr in ("__init__", "__init_subclass__", "__post_init__"):
+                return K(None)  # object.__init__
         if isinstance(fval, R) and fval.kind == "rawfunc" and isinstance(call.func, ast.Name):
             # the undecorated function a package decorator was handed
             raw = next((f for f in self.repo.all_functions() if f.fq == fval.fields["fq"].v), None)
@@ -864,6 +879,12 @@ class RepoInterp:
             names_t = [t.name.split(":")[-1].split(".")[-1] for t in targets if isinstance(t, S)]
             if len(names_t) == len(targets):
                 return K(any(exc_is(args[0].name[len("excclass:"):], n_, self.interp.exc_parents) for n_ in names_t))
+        if fname == "isinstance" and len(args) == 2 and isinstance(args[0], Ref) and args[0].kind == "obj" and isinstance(call.args[1], (ast.Name, ast.Attribute)):
+            # an object of the scenario's heap against a class of the package: decided by the class hierarchy of the source
+            ci_o = self._class_of_ref(args[0], st)
+            ci_t = self.repo.resolve_class(self.cur_fi.module, dotted(call.args[1]) or "")
+            if ci_o is not None and ci_t is not None:
+                return K(any(c.fq == ci_t.fq for c in self.repo.mro(ci_o)))
         if fname == "isinstance" and len(args) == 2 and ((isinstance(args[0], S) and args[0].name.startswith("exc:")) or (isinstance(args[0], R) and args[0].kind == "exc" and isinstance(args[0].fields.get("cls"), K))):
             # an exception object in flight (bound by a handler, or handed to __exit__): decided by the class hierarchy
             from mtsa.absint import exc_is
